@@ -1,447 +1,45 @@
-import Log4rsModel.Rolling.LemmasRoller
-import Log4rsModel.Rolling.LemmasLock
+import Log4rsModel.Rolling.Ext17Startup
+import Log4rsModel.Rolling.Ext17Refine
+import Log4rsModel.Rolling.Ext17OnceLemmas
 /-
 C17 — On-start-up trigger rolls at most once, on the first record, if big enough.
+
 Model: `Rolling/Model.lean` with `onStartupTrigger minSize` (state = "the `Once` has run";
-pre-process). `std::sync::Once` is assumed to run its closure exactly once; the concurrent clause
-uses the coarse lock machine of `Rolling/Lock.lean` (the appender's mutex spans the whole append).
+pre-process), the fixed-window / delete roller models of `Roller/Model.lean`, and the harness's
+roller wrapper (`Spec17.lateWrap`). Statement as an executable function: `Rolling/Ext17Spec.lean`
+(`Spec17.step`), evaluated by the driver on the real directory; `C17_model_refines_spec` proves the
+model refines it. All theorems below are about the CURRENT code (after 9f38f0b: the record is
+encoded into memory after the policy has run).
+
+Clause map
+  (a) at most one rotation request per appender   C17_at_most_one_per_lifetime, C17_at_most_one_roll(_failing_encoders)
+  (b) only while the first record is handled,
+  (c) iff the file then holds ≥ min_size bytes     C17_rolls_iff_first_and_big (one iff over all histories),
+                                                   C17_only_first(_ops), C17_iff_big_enough(_ops)
+  (d) old content becomes the newest archive,
+  (e) the first record starts a fresh file         C17_content_placement_fw / _dense / _delete, C17_model_refines_spec
+      … when the roller or the encoder fails        C17_first_record_roller_fails, C17_first_record_encoder_fails
+  (f) simultaneous first appends                   C17_concurrent_first (appender mutex assumed),
+                                                   C17_once_at_most_one_yes (trigger alone, atomic `Once` assumed),
+                                                   C17_once_racy_flag_breaks (what the assumption buys)
 -/
 namespace Log4rs.Rolling
 open Log4rs.Roller
 
-def startupCfg (path : Path) (appendMode : Bool) (minSize : Nat) (roll : RollFn) : Cfg Bool :=
-  { path, appendMode, trig := onStartupTrigger minSize, roll }
+/-! ### (a) at most one rotation request -/
 
-def isRoll : Option Out → Bool
-  | some out => out.rolled.isSome
-  | none => false
-
-/-- number of operations of a history in which the roller was invoked -/
-def rolls (outs : List (Option Out)) : Nat := (outs.filter isRoll).length
-
-def isRestart : Op → Bool
-  | .restart => true
-  | _ => false
-
-def restarts (ops : List Op) : Nat := (ops.filter isRestart).length
-
-/-- no append since the appender was built (scanning the history from the start) -/
-def fresh (ops : List Op) : Bool :=
-  ops.foldl (fun b op => match op with | .append _ _ => false | .restart => true | .tick _ => b) true
-
-/-- one append under the on-start-up trigger -/
-theorem startup_append (path : Path) (am : Bool) (m : Nat) (roll : RollFn) (s : St Bool) (r : Rec)
-    (fault : Nat → Bool) (hwf : WF (startupCfg path am m roll) s) :
-    (append (startupCfg path am m roll) s r fault).2.tst = true ∧
-    (s.tst = true → (append (startupCfg path am m roll) s r fault).1.rolled = none) ∧
-    (s.tst = false → ((append (startupCfg path am m roll) s r fault).1.rolled.isSome ↔
-        (openView (startupCfg path am m roll) s).length ≥ m)) := by
-  obtain ⟨_, ht, _, _, hno, _, hyes⟩ := append_pre_spec (startupCfg path am m roll) s r fault hwf rfl _ _
-    (append (startupCfg path am m roll) s r fault).1 (append (startupCfg path am m roll) s r fault).2 rfl rfl rfl
-  have key : ∀ L, ((startupCfg path am m roll).trig.fire s.tst L s.now) =
-      if s.tst then (.no, true) else (if L ≥ m then .yes else .no, true) := by
-    intro L; simp [startupCfg, onStartupTrigger]
-  refine ⟨?_, ?_, ?_⟩
-  · rw [ht, key]; cases s.tst <;> simp
-  · intro hs
-    have hf : ((startupCfg path am m roll).trig.fire s.tst (openView (startupCfg path am m roll) s).length s.now).1 = .no := by
-      rw [key, hs]; rfl
-    exact (hno hf).2.1
-  · intro hs
-    by_cases hge : (openView (startupCfg path am m roll) s).length ≥ m
-    · have hf : ((startupCfg path am m roll).trig.fire s.tst (openView (startupCfg path am m roll) s).length s.now).1 = .yes := by
-        rw [key, hs]; simp [hge]
-      obtain ⟨d1, _, _, h⟩ := hyes hf
-      rcases h with ⟨_, _, _, hr, _⟩ | ⟨_, _, _, hr, _⟩ <;> simp [hr, hge]
-    · have hf : ((startupCfg path am m roll).trig.fire s.tst (openView (startupCfg path am m roll) s).length s.now).1 = .no := by
-        rw [key, hs]; simp [hge]
-      simp [(hno hf).2.1, hge]
-
-theorem startup_applyOp_tst (path : Path) (am : Bool) (m : Nat) (roll : RollFn) (s : St Bool) (op : Op)
-    (hwf : WF (startupCfg path am m roll) s) :
-    (applyOp (startupCfg path am m roll) s op).2.tst =
-      match op with | .append _ _ => true | .restart => false | .tick _ => s.tst := by
-  cases op with
-  | append r f => exact (startup_append path am m roll s r (faultFn f) hwf).1
-  | restart =>
-    simp only [applyOp, restart, build]
-    exact (getWriter_spec (startupCfg path am m roll) _ (Or.inl rfl)).2.2.2.1
-  | tick dt => rfl
-
-theorem rolls_bound (path : Path) (am : Bool) (m : Nat) (roll : RollFn) (ops : List Op) (s : St Bool)
-    (hwf : WF (startupCfg path am m roll) s) :
-    rolls (run (startupCfg path am m roll) s ops).1 ≤ (if s.tst then 0 else 1) + restarts ops := by
-  induction ops generalizing s with
-  | nil => simp [run, rolls]
-  | cons op ops ih =>
-    have hwf' := WF_applyOp (startupCfg path am m roll) s op hwf
-    have ih' := ih _ hwf'
-    have htst := startup_applyOp_tst path am m roll s op hwf
-    have hr : rolls (run (startupCfg path am m roll) s (op :: ops)).1 =
-        (if isRoll (applyOp (startupCfg path am m roll) s op).1 then 1 else 0) +
-          rolls (run (startupCfg path am m roll) (applyOp (startupCfg path am m roll) s op).2 ops).1 := by
-      simp only [run, rolls, List.filter_cons]
-      split <;> simp <;> omega
-    rw [hr]
-    cases op with
-    | append r f =>
-      have hs := startup_append path am m roll s r (faultFn f) hwf
-      simp only [htst, if_true] at ih'
-      have hres : restarts (Op.append r f :: ops) = restarts ops := by simp [restarts, isRestart]
-      rw [hres]
-      cases hst : s.tst with
-      | true =>
-        have : isRoll (applyOp (startupCfg path am m roll) s (.append r f)).1 = false := by
-          simp [applyOp, isRoll, hs.2.1 hst]
-        simp only [this]
-        simp only [Bool.false_eq_true, if_false, if_true]
-        omega
-      | false =>
-        simp only [Bool.false_eq_true, if_false]
-        split <;> omega
-    | restart =>
-      have : isRoll (applyOp (startupCfg path am m roll) s .restart).1 = false := rfl
-      have hres : restarts (Op.restart :: ops) = restarts ops + 1 := by simp [restarts, isRestart, List.filter_cons]
-      rw [this, hres]
-      simp only [htst] at ih'
-      simp only [Bool.false_eq_true, if_false] at ih' ⊢
-      split <;> omega
-    | tick dt =>
-      have : isRoll (applyOp (startupCfg path am m roll) s (.tick dt)).1 = false := rfl
-      have hres : restarts (Op.tick dt :: ops) = restarts ops := by simp [restarts, isRestart]
-      rw [this, hres]
-      simp only [htst] at ih'
-      simpa using ih'
-
-/-- In the lifetime of one appender — any history of appends (any record, any injected roller
-fault) and clock ticks — the on-start-up trigger requests at most one rotation; with restarts, at
-most one per appender built. `rolls` counts every invocation of the roller, successful or failed
-(`Out.rolled.isSome`): `process` calls `cfg.roll` exactly once per firing of the trigger, so this is
-the number of rotation requests (the harness counts `Roll::roll` calls through a wrapper). -/
+/-- Over any history of appends (any record, any injected roller fault), clock ticks and restarts
+the on-start-up trigger requests at most one rotation per appender built: `1 + restarts` in total.
+`rolls` counts every invocation of the roller, successful or failed (`Out.rolled.isSome`):
+`process` calls `cfg.roll` exactly once per firing of the trigger. (The per-appender form is
+`C17_at_most_one_per_lifetime`.) -/
 theorem C17_at_most_one_roll (path : Path) (am : Bool) (m : Nat) (roll : RollFn) (d : Disk) (now : Nat) (ops : List Op) :
     rolls (run (startupCfg path am m roll) (init (startupCfg path am m roll) d false now) ops).1 ≤ 1 + restarts ops := by
   have h := rolls_bound path am m roll ops _ (WF_init (startupCfg path am m roll) d false now)
-  have ht : (init (startupCfg path am m roll) d false now).tst = false :=
-    (getWriter_spec (startupCfg path am m roll) _ (Or.inl rfl)).2.2.2.1
-  simpa [ht] using h
+  simpa [init_tst] using h
 
-theorem startup_tst_run (path : Path) (am : Bool) (m : Nat) (roll : RollFn) (ops : List Op) (s : St Bool)
-    (hwf : WF (startupCfg path am m roll) s) (b : Bool) (hb : s.tst = !b) :
-    (run (startupCfg path am m roll) s ops).2.tst =
-      !(ops.foldl (fun b op => match op with | .append _ _ => false | .restart => true | .tick _ => b) b) := by
-  induction ops generalizing s b with
-  | nil => simpa [run] using hb
-  | cons op ops ih =>
-    have hwf' := WF_applyOp (startupCfg path am m roll) s op hwf
-    have htst := startup_applyOp_tst path am m roll s op hwf
-    simp only [run, List.foldl_cons]
-    apply ih _ hwf'
-    rw [htst]
-    cases op <;> simp [hb]
-
-/-- A rotation is requested only while handling the first record after start-up: if the roller is
-invoked by an append that follows the history `ops`, then no append has happened since the
-appender was built (`fresh ops`). -/
-theorem C17_only_first_ops (path : Path) (am : Bool) (m : Nat) (roll : RollFn) (d : Disk) (now : Nat) (ops : List Op)
-    (r : Rec) (fault : Nat → Bool) :
-    let s := (run (startupCfg path am m roll) (init (startupCfg path am m roll) d false now) ops).2
-    (append (startupCfg path am m roll) s r fault).1.rolled.isSome → fresh ops = true := by
-  intro s hroll
-  have hwf0 := WF_init (startupCfg path am m roll) d false now
-  have hwf : WF (startupCfg path am m roll) s := run_invariant _ (fun s op h => WF_applyOp _ s op h) ops _ hwf0
-  have ht0 : (init (startupCfg path am m roll) d false now).tst = false :=
-    (getWriter_spec (startupCfg path am m roll) _ (Or.inl rfl)).2.2.2.1
-  have ht := startup_tst_run path am m roll ops _ hwf0 true (by simp [ht0])
-  have hs := startup_append path am m roll s r fault hwf
-  cases hf : fresh ops with
-  | true => rfl
-  | false =>
-    have : s.tst = true := by
-      show (run _ _ ops).2.tst = true
-      rw [ht]
-      simp only [fresh] at hf
-      simp [hf]
-    rw [hs.2.1 this] at hroll
-    simp at hroll
-
-/-- The first record rolls iff the log file that exists at that moment has at least `min_size`
-bytes (`min_size = 0` and an empty file included). At the first append of a new appender that file
-is what open left: the pre-existing content in append mode, nothing in truncate mode. -/
-theorem C17_iff_big_enough_ops (path : Path) (am : Bool) (m : Nat) (roll : RollFn) (d : Disk) (now : Nat)
-    (r : Rec) (fault : Nat → Bool) :
-    let cfg := startupCfg path am m roll
-    ((append cfg (init cfg d false now) r fault).1.rolled.isSome ↔
-      (if am then fileOf cfg d else []).length ≥ m) := by
-  intro cfg
-  have hwf := WF_init cfg d false now
-  have ht0 : (init cfg d false now).tst = false := (getWriter_spec cfg _ (Or.inl rfl)).2.2.2.1
-  have ho : Opened cfg (init cfg d false now) (if am then fileOf cfg d else []) := by
-    have h := (getWriter_spec cfg { disk := d, writer := none, tst := cfg.trig.reinit false now, now := now, opened := false } (Or.inl rfl)).1
-    simpa [openView, init, build, cfg, startupCfg] using h
-  have hov : openView cfg (init cfg d false now) = if am then fileOf cfg d else [] := by
-    obtain ⟨w, hw, _, hg, _⟩ := ho
-    simp [openView, hw, fileOf_of_get hg]
-  have := (startup_append path am m roll (init cfg d false now) r fault hwf).2.2 ht0
-  rw [hov] at this
-  exact this
-
-/-- The same for the first append after any history that ends in a fresh appender (for instance
-after a restart): the decision looks at the file as the new appender opened it. -/
-theorem C17_iff_big_enough_any (path : Path) (am : Bool) (m : Nat) (roll : RollFn) (s : St Bool)
-    (r : Rec) (fault : Nat → Bool) (hwf : WF (startupCfg path am m roll) s) (hfresh : s.tst = false) :
-    ((append (startupCfg path am m roll) s r fault).1.rolled.isSome ↔
-      (openView (startupCfg path am m roll) s).length ≥ m) :=
-  (startup_append path am m roll s r fault hwf).2.2 hfresh
-
-/-- When the first record rolls (and the roller succeeds): the content that was in the log file
-becomes the newest archive — `arch` after = (`arch` before ++ [old content]) minus whole oldest
-files — and the record starts a fresh file: the active file is exactly the encoded record. For any
-roller satisfying `RollContract` (proved for the delete roller here and for the fixed-window model
-in `C05`). -/
-theorem C17_content_placement (path : Path) (am : Bool) (m : Nat) (roll : RollFn) (arch : Disk → List Bytes)
-    (hc : RollContract roll path arch) (s : St Bool) (r : Rec) (fault : Nat → Bool)
-    (hwf : WF (startupCfg path am m roll) s) (hfresh : s.tst = false)
-    (hbig : (openView (startupCfg path am m roll) s).length ≥ m)
-    (hok : (append (startupCfg path am m roll) s r fault).1.res = .ok) :
-    let s' := (append (startupCfg path am m roll) s r fault).2
-    s'.disk.get? path = some (encBytes r) ∧
-    ∃ j, arch s'.disk = (arch s.disk ++ [openView (startupCfg path am m roll) s]).drop j := by
-  intro s'
-  obtain ⟨_, _, _, _, _, _, hyes⟩ := append_pre_spec (startupCfg path am m roll) s r fault hwf rfl _ _
-    (append (startupCfg path am m roll) s r fault).1 (append (startupCfg path am m roll) s r fault).2 rfl rfl rfl
-  have key : ((startupCfg path am m roll).trig.fire s.tst (openView (startupCfg path am m roll) s).length s.now).1 = .yes := by
-    simp [startupCfg, onStartupTrigger, hfresh]
-    simp only [startupCfg] at hbig
-    exact hbig
-  obtain ⟨d1, hg1, hse1, h⟩ := hyes key
-  rcases h with ⟨x, hx, _, _, ho, hse⟩ | ⟨e, _, hr, _⟩
-  · have hroll : roll path fault d1 = (.ok x, (roll path fault d1).2) := by
-      have : (roll path fault d1).1 = .ok x := hx
-      rw [← this]
-    obtain ⟨hgone, j, harch⟩ := hc.ok fault d1 x _ _ hroll hg1
-    have hfile : fileOf (startupCfg path am m roll)
-        ((startupCfg path am m roll).roll (startupCfg path am m roll).path fault d1).2 = [] := by
-      simp [fileOf, startupCfg, hgone]
-    rw [hfile] at ho
-    obtain ⟨w, _, _, hg, _⟩ := ho
-    refine ⟨hg, j, ?_⟩
-    have h1 : arch s'.disk = arch (roll path fault d1).2 := hc.frame _ _ hse
-    have h2 : arch d1 = arch s.disk := hc.frame _ _ hse1
-    rw [h1, harch, h2]
-  · rw [hr] at hok
-    cases hok
-
-/-- Simultaneous first appends: in every state the lock machine can reach from `progs` (one list
-of records per thread; any scheduler), the appender's state is the sequential execution of the
-committed appends in commit order, the commit order is a merge of what each thread has completed —
-hence (`C17_at_most_one_roll`) at most one rotation happened, it was requested by the first
-committed append, and every record was written after it. -/
-theorem C17_concurrent_first (path : Path) (am : Bool) (m : Nat) (roll : RollFn) (d : Disk) (now : Nat)
-    (progs : List (List Rec)) (sched : List Nat) :
-    let cfg := startupCfg path am m roll
-    let body : Rec → (List (Option Out) × St Bool) → (List (Option Out) × St Bool) :=
-      fun r acc => (acc.1 ++ [some (append cfg acc.2 r (fun _ => false)).1], (append cfg acc.2 r (fun _ => false)).2)
-    let st := lrun body (LState.init ([], init cfg d false now) progs) sched
-    let order := st.log.map (·.2)
-    st.shared = (order.foldl (fun acc r => body r acc) ([], init cfg d false now)) ∧
-    (∀ i t, st.threads[i]? = some t → (st.log.filter (fun e => e.1 == i)).map (·.2) = t.done ∧
-        ∃ p, progs[i]? = some p ∧ t.done <+: p) ∧
-    st.shared = run cfg (init cfg d false now) (order.map (fun r => Op.append r none)) ∧
-    rolls st.shared.1 ≤ 1 := by
-  intro cfg body st order
-  have inv : LInv body ([], init cfg d false now) progs st := (LInv.init body _ progs).run sched
-  have hseq : ∀ (rs : List Rec) (acc : List (Option Out) × St Bool),
-      rs.foldl (fun acc r => body r acc) acc =
-        (acc.1 ++ (run cfg acc.2 (rs.map (fun r => Op.append r none))).1,
-         (run cfg acc.2 (rs.map (fun r => Op.append r none))).2) := by
-    intro rs
-    induction rs with
-    | nil => intro acc; simp [run]
-    | cons r rs ih =>
-      intro acc
-      simp only [List.foldl_cons, List.map_cons, run, applyOp]
-      rw [ih]
-      have hf : faultFn none = fun _ => false := by funext k; simp [faultFn]
-      simp [body, hf]
-  have hshared : st.shared = run cfg (init cfg d false now) (order.map (fun r => Op.append r none)) := by
-    rw [inv.shared, hseq]
-    simp [order]
-  refine ⟨inv.shared, ?_, hshared, ?_⟩
-  · intro i t ht
-    obtain ⟨hl, p, hp1, hp2⟩ := inv.threads i t ht
-    exact ⟨hl, p, hp1, ⟨t.todo, hp2⟩⟩
-  · rw [hshared]
-    have := C17_at_most_one_roll path am m roll d now (order.map (fun r => Op.append r none))
-    have hz : restarts (order.map (fun r => Op.append r none)) = 0 := by
-      simp [restarts, isRestart, List.filter_eq_nil_iff]
-    simpa [hz, cfg] using this
-
-/-! ### histories in which encoders may fail (`XOp`)
-
-`RollingFileAppender::append` consults the policy *before* it encodes the record
-(`get_writer → policy.process → get_writer → encode_whole`), so the on-start-up trigger's `Once`
-is consumed by the first record that ARRIVES, whether or not its encoder then fails. The theorems
-below are the general forms: histories and the deciding operation range over `XOp`. -/
-
-theorem startup_appendFail (path : Path) (am : Bool) (m : Nat) (roll : RollFn) (s : St Bool) (r : Rec) (n : Nat)
-    (fault : Nat → Bool) (hwf : WF (startupCfg path am m roll) s) :
-    (appendFail (startupCfg path am m roll) s r n fault).2.tst = true ∧
-    (s.tst = true → (appendFail (startupCfg path am m roll) s r n fault).1.rolled = none) ∧
-    (s.tst = false → ((appendFail (startupCfg path am m roll) s r n fault).1.rolled.isSome ↔
-        (openView (startupCfg path am m roll) s).length ≥ m)) := by
-  obtain ⟨_, ht, _, _, hno, _, hyes⟩ := appendFail_pre_spec (startupCfg path am m roll) s r n fault hwf rfl _ _
-    (appendFail (startupCfg path am m roll) s r n fault).1 (appendFail (startupCfg path am m roll) s r n fault).2 rfl rfl rfl
-  have key : ∀ L, ((startupCfg path am m roll).trig.fire s.tst L s.now) =
-      if s.tst then (.no, true) else (if L ≥ m then .yes else .no, true) := by
-    intro L; simp [startupCfg, onStartupTrigger]
-  refine ⟨?_, ?_, ?_⟩
-  · rw [ht, key]; cases s.tst <;> simp
-  · intro hs
-    have hf : ((startupCfg path am m roll).trig.fire s.tst (openView (startupCfg path am m roll) s).length s.now).1 = .no := by
-      rw [key, hs]; rfl
-    exact (hno hf).2.1
-  · intro hs
-    by_cases hge : (openView (startupCfg path am m roll) s).length ≥ m
-    · have hf : ((startupCfg path am m roll).trig.fire s.tst (openView (startupCfg path am m roll) s).length s.now).1 = .yes := by
-        rw [key, hs]; simp [hge]
-      obtain ⟨d1, _, _, h⟩ := hyes hf
-      rcases h with ⟨_, _, _, hr, _⟩ | ⟨_, _, _, hr, _⟩ <;> simp [hr, hge]
-    · have hf : ((startupCfg path am m roll).trig.fire s.tst (openView (startupCfg path am m roll) s).length s.now).1 = .no := by
-        rw [key, hs]; simp [hge]
-      simp [(hno hf).2.1, hge]
-
-/-- a record arrives at the appender (its encoder may or may not succeed) -/
-def arrival : XOp → Bool
-  | .op (.append _ _) => true
-  | .appendFail _ _ _ => true
-  | _ => false
-
-/-- no record has arrived since the appender was built -/
-def freshX (ops : List XOp) : Bool :=
-  ops.foldl (fun b op => match op with
-    | .op (.append _ _) => false | .appendFail _ _ _ => false | .op .restart => true | .op (.tick _) => b) true
-
-/-- the state after a history -/
-def finalX (cfg : Cfg Bool) (s : St Bool) (ops : List XOp) : St Bool := ops.foldl (fun s op => (applyX cfg s op).2) s
-
-theorem startup_applyX_tst (path : Path) (am : Bool) (m : Nat) (roll : RollFn) (s : St Bool) (op : XOp)
-    (hwf : WF (startupCfg path am m roll) s) :
-    (applyX (startupCfg path am m roll) s op).2.tst =
-      match op with
-      | .op (.append _ _) => true | .appendFail _ _ _ => true | .op .restart => false | .op (.tick _) => s.tst := by
-  cases op with
-  | appendFail r n f => exact (startup_appendFail path am m roll s r n (faultFn f) hwf).1
-  | op o =>
-    have := startup_applyOp_tst path am m roll s o hwf
-    cases o <;> simpa [applyX] using this
-
-theorem WF_finalX (cfg : Cfg Bool) (ops : List XOp) (s : St Bool) (hwf : WF cfg s) : WF cfg (finalX cfg s ops) := by
-  induction ops generalizing s with
-  | nil => exact hwf
-  | cons op ops ih => exact ih _ (WF_applyX cfg s op hwf)
-
-theorem startup_tst_finalX (path : Path) (am : Bool) (m : Nat) (roll : RollFn) (ops : List XOp) (s : St Bool)
-    (hwf : WF (startupCfg path am m roll) s) (b : Bool) (hb : s.tst = !b) :
-    (finalX (startupCfg path am m roll) s ops).tst =
-      !(ops.foldl (fun b op => match op with
-        | .op (.append _ _) => false | .appendFail _ _ _ => false | .op .restart => true | .op (.tick _) => b) b) := by
-  induction ops generalizing s b with
-  | nil => simpa [finalX] using hb
-  | cons op ops ih =>
-    have hwf' := WF_applyX (startupCfg path am m roll) s op hwf
-    have htst := startup_applyX_tst path am m roll s op hwf
-    simp only [finalX, List.foldl_cons]
-    apply ih _ hwf'
-    rw [htst]
-    cases op with
-    | appendFail r n f => simp
-    | op o => cases o <;> simp [hb]
-
-/-- A rotation is requested only while handling the first record that ARRIVES after start-up: if
-any operation following the history `ops` — an append, or an append whose encoder fails — invokes
-the roller, then no record has arrived since the appender was built (`freshX ops`), whatever
-happened to the encoders of the records in `ops`. -/
-theorem C17_only_first (path : Path) (am : Bool) (m : Nat) (roll : RollFn) (d : Disk) (now : Nat) (ops : List XOp)
-    (op : XOp) (out : Out) :
-    let cfg := startupCfg path am m roll
-    (applyX cfg (finalX cfg (init cfg d false now) ops) op).1 = some out → out.rolled.isSome → freshX ops = true := by
-  intro cfg hout hroll
-  have hwf0 := WF_init cfg d false now
-  have hwf := WF_finalX cfg ops _ hwf0
-  have ht0 : (init cfg d false now).tst = false := (getWriter_spec cfg _ (Or.inl rfl)).2.2.2.1
-  have ht := startup_tst_finalX path am m roll ops _ hwf0 true (by simp [ht0])
-  cases hf : freshX ops with
-  | true => rfl
-  | false =>
-    have hst : (finalX cfg (init cfg d false now) ops).tst = true := by
-      rw [ht]
-      simp only [freshX] at hf
-      simp [hf]
-    exfalso
-    cases op with
-    | appendFail r n f =>
-      have := (startup_appendFail path am m roll _ r n (faultFn f) hwf).2.1 hst
-      simp only [applyX] at hout
-      rw [← Option.some.inj hout, this] at hroll
-      simp at hroll
-    | op o =>
-      cases o with
-      | append r f =>
-        have := (startup_append path am m roll _ r (faultFn f) hwf).2.1 hst
-        simp only [applyX, applyOp] at hout
-        rw [← Option.some.inj hout, this] at hroll
-        simp at hroll
-      | restart => simp [applyX, applyOp] at hout
-      | tick dt => simp [applyX, applyOp] at hout
-
-/-- The first record to arrive rolls iff the log file that exists at that moment has at least
-`min_size` bytes — also when its encoder then fails: the decision is taken before the record is
-encoded. (At the first arrival of a new appender the file is what open left: the pre-existing
-content in append mode, nothing in truncate mode.) -/
-theorem C17_iff_big_enough (path : Path) (am : Bool) (m : Nat) (roll : RollFn) (d : Disk) (now : Nat)
-    (op : XOp) (harr : arrival op = true) :
-    let cfg := startupCfg path am m roll
-    ∃ out, (applyX cfg (init cfg d false now) op).1 = some out ∧
-      (out.rolled.isSome ↔ (if am then fileOf cfg d else []).length ≥ m) := by
-  intro cfg
-  have hwf := WF_init cfg d false now
-  have ht0 : (init cfg d false now).tst = false := (getWriter_spec cfg _ (Or.inl rfl)).2.2.2.1
-  have ho : Opened cfg (init cfg d false now) (if am then fileOf cfg d else []) := by
-    have h := (getWriter_spec cfg { disk := d, writer := none, tst := cfg.trig.reinit false now, now := now, opened := false } (Or.inl rfl)).1
-    simpa [openView, init, build, cfg, startupCfg] using h
-  have hov : openView cfg (init cfg d false now) = if am then fileOf cfg d else [] := by
-    obtain ⟨w, hw, _, hg, _⟩ := ho
-    simp [openView, hw, fileOf_of_get hg]
-  cases op with
-  | appendFail r n f =>
-    have := (startup_appendFail path am m roll (init cfg d false now) r n (faultFn f) hwf).2.2 ht0
-    rw [hov] at this
-    exact ⟨_, rfl, this⟩
-  | op o =>
-    cases o with
-    | append r f =>
-      have := (startup_append path am m roll (init cfg d false now) r (faultFn f) hwf).2.2 ht0
-      rw [hov] at this
-      exact ⟨_, rfl, this⟩
-    | restart => simp [arrival] at harr
-    | tick dt => simp [arrival] at harr
-
-/-- … and the same for the first arrival after any history that ends in a fresh appender -/
-theorem C17_iff_big_enough_failing_encoder (path : Path) (am : Bool) (m : Nat) (roll : RollFn) (s : St Bool)
-    (r : Rec) (n : Nat) (fault : Nat → Bool) (hwf : WF (startupCfg path am m roll) s) (hfresh : s.tst = false) :
-    ((appendFail (startupCfg path am m roll) s r n fault).1.rolled.isSome ↔
-      (openView (startupCfg path am m roll) s).length ≥ m) :=
-  (startup_appendFail path am m roll s r n fault hwf).2.2 hfresh
-
-def isRollX : Option Out × St Bool → Bool := fun e => isRoll e.1
-
-def xIsRestart : XOp → Bool
-  | .op .restart => true
-  | _ => false
-
-def restartsX (ops : List XOp) : Nat := (ops.filter xIsRestart).length
-
-/-- at most one rotation request per appender built, over histories with failing encoders -/
+/-- at most one rotation request per appender built, from any well-formed state, over histories
+in which encoders may fail -/
 theorem C17_at_most_one_roll_failing_encoders (path : Path) (am : Bool) (m : Nat) (roll : RollFn) (ops : List XOp)
     (s : St Bool) (hwf : WF (startupCfg path am m roll) s) :
     ((traceX (startupCfg path am m roll) s ops).filter isRollX).length ≤ (if s.tst then 0 else 1) + restartsX ops := by
@@ -452,7 +50,6 @@ theorem C17_at_most_one_roll_failing_encoders (path : Path) (am : Bool) (m : Nat
     have ih' := ih _ hwf'
     have htst := startup_applyX_tst path am m roll s op hwf
     simp only [traceX, List.filter_cons]
-    -- the roller is not invoked when the `Once` has run; a restart re-arms it
     have hnone : s.tst = true → isRollX (applyX (startupCfg path am m roll) s op) = false := by
       intro hst
       cases op with
@@ -495,27 +92,694 @@ theorem C17_at_most_one_roll_failing_encoders (path : Path) (am : Bool) (m : Nat
         simp only [htst] at ih'
         simpa using ih'
 
+/-- In the lifetime of ONE appender: whatever happened before (`pre`: any history, restarts
+included), a stretch of operations without a restart (`ops`: appends with working or failing
+encoders, any roller faults, clock ticks) contains at most one rotation request. -/
+theorem C17_at_most_one_per_lifetime (path : Path) (am : Bool) (m : Nat) (roll : RollFn) (d : Disk) (now : Nat)
+    (pre ops : List XOp) (hnr : restartsX ops = 0) :
+    let cfg := startupCfg path am m roll
+    ((traceX cfg (finalX cfg (init cfg d false now) pre) ops).filter isRollX).length ≤ 1 := by
+  intro cfg
+  have hwf := WF_finalX cfg pre _ (WF_init cfg d false now)
+  have h : ((traceX cfg (finalX cfg (init cfg d false now) pre) ops).filter isRollX).length ≤
+      (if (finalX cfg (init cfg d false now) pre).tst then 0 else 1) + restartsX ops :=
+    C17_at_most_one_roll_failing_encoders path am m roll ops _ hwf
+  rw [hnr] at h
+  have : (if (finalX cfg (init cfg d false now) pre).tst = true then 0 else 1) ≤ 1 := by split <;> omega
+  omega
+
+/-! ### (b) + (c) only the first record after start-up, iff the file is big enough -/
+
+/-- A rotation is requested only while handling the first record after start-up: if the roller is
+invoked by an append that follows the history `ops`, then no append has happened since the
+appender was built (`fresh ops`). -/
+theorem C17_only_first_ops (path : Path) (am : Bool) (m : Nat) (roll : RollFn) (d : Disk) (now : Nat) (ops : List Op)
+    (r : Rec) (fault : Nat → Bool) :
+    let s := (run (startupCfg path am m roll) (init (startupCfg path am m roll) d false now) ops).2
+    (append (startupCfg path am m roll) s r fault).1.rolled.isSome → fresh ops = true := by
+  intro s hroll
+  have hwf0 := WF_init (startupCfg path am m roll) d false now
+  have hwf : WF (startupCfg path am m roll) s := run_invariant _ (fun s op h => WF_applyOp _ s op h) ops _ hwf0
+  have ht := startup_tst_run path am m roll ops _ hwf0 true (init_tst path am m roll d now)
+  have hs := startup_append path am m roll s r fault hwf
+  cases hf : fresh ops with
+  | true => rfl
+  | false =>
+    have : s.tst = true := by
+      show (run _ _ ops).2.tst = true
+      rw [ht]
+      simp only [fresh] at hf
+      simp [hf]
+    rw [hs.2.1 this] at hroll
+    simp at hroll
+
+/-- A rotation is requested only while handling the first record that ARRIVES after start-up: if
+any operation following the history `ops` — an append, or an append whose encoder fails — invokes
+the roller, then no record has arrived since the appender was built (`freshX ops`), whatever
+happened to the encoders of the records in `ops`. -/
+theorem C17_only_first (path : Path) (am : Bool) (m : Nat) (roll : RollFn) (d : Disk) (now : Nat) (ops : List XOp)
+    (op : XOp) (out : Out) :
+    let cfg := startupCfg path am m roll
+    (applyX cfg (finalX cfg (init cfg d false now) ops) op).1 = some out → out.rolled.isSome → freshX ops = true := by
+  intro cfg hout hroll
+  have hwf0 := WF_init cfg d false now
+  have hwf := WF_finalX cfg ops _ hwf0
+  have ht := startup_tst_finalX path am m roll ops _ hwf0 true (init_tst path am m roll d now)
+  cases hf : freshX ops with
+  | true => rfl
+  | false =>
+    have hst : (finalX cfg (init cfg d false now) ops).tst = true := by
+      rw [ht]
+      simp only [freshX] at hf
+      simp [hf]
+    exfalso
+    cases op with
+    | appendFail r n f =>
+      have := (startup_appendFail path am m roll _ r n (faultFn f) hwf).2.1 hst
+      simp only [applyX] at hout
+      rw [← Option.some.inj hout, this] at hroll
+      simp at hroll
+    | op o =>
+      cases o with
+      | append r f =>
+        have := (startup_append path am m roll _ r (faultFn f) hwf).2.1 hst
+        simp only [applyX, applyOp] at hout
+        rw [← Option.some.inj hout, this] at hroll
+        simp at hroll
+      | restart => simp [applyX, applyOp] at hout
+      | tick dt => simp [applyX, applyOp] at hout
+
+/-- Clauses (b) and (c) as one equivalence over ALL histories: after any history `pre` (records with
+working or failing encoders, roller faults, ticks, restarts, on any initial disk, both modes), a
+record that arrives — whether or not its encoder then fails — requests a rotation IFF no record has
+arrived since the appender was built AND the log file on disk at that moment holds at least
+`min_size` bytes (`min_size = 0` and an empty or absent file included). -/
+theorem C17_rolls_iff_first_and_big (path : Path) (am : Bool) (m : Nat) (roll : RollFn) (d : Disk) (now : Nat)
+    (pre : List XOp) (op : XOp) (harr : arrival op = true) :
+    let cfg := startupCfg path am m roll
+    let s := finalX cfg (init cfg d false now) pre
+    ∃ out, (applyX cfg s op).1 = some out ∧
+      (out.rolled.isSome ↔ (freshX pre = true ∧ (fileOf cfg s.disk).length ≥ m)) := by
+  intro cfg s
+  have hwf0 := WF_init cfg d false now
+  have hwf : WF cfg s := WF_finalX cfg pre _ hwf0
+  have ht := startup_tst_finalX path am m roll pre _ hwf0 true (init_tst path am m roll d now)
+  cases hf : freshX pre with
+  | false =>
+    have hst : s.tst = true := by
+      show (finalX cfg _ pre).tst = true
+      rw [ht]; simp only [freshX] at hf; simp [hf]
+    obtain ⟨⟨out, ho, hr⟩, _, _⟩ := arrive_after_fired path am m roll s op hwf hst harr
+    exact ⟨out, ho, by simp [hr]⟩
+  | true =>
+    have hst : s.tst = false := by
+      show (finalX cfg _ pre).tst = false
+      rw [ht]; simp only [freshX] at hf; simp [hf]
+    obtain ⟨out, ho, hiff, _⟩ := first_arrival path am m roll s op hwf hst harr
+    exact ⟨out, ho, by simpa using hiff⟩
+
+/-- The first record of the first appender, in terms of what was on the disk before the process
+started: it rolls iff the pre-existing content (append mode) / nothing (truncate mode: the open has
+emptied the file) has at least `min_size` bytes. -/
+theorem C17_iff_big_enough_ops (path : Path) (am : Bool) (m : Nat) (roll : RollFn) (d : Disk) (now : Nat)
+    (r : Rec) (fault : Nat → Bool) :
+    let cfg := startupCfg path am m roll
+    ((append cfg (init cfg d false now) r fault).1.rolled.isSome ↔
+      (if am then fileOf cfg d else []).length ≥ m) := by
+  intro cfg
+  have hwf := WF_init cfg d false now
+  have := (startup_append path am m roll (init cfg d false now) r fault hwf).2.2 (init_tst path am m roll d now)
+  rw [openView_of_opened cfg _ hwf.1, init_fileOf] at this
+  exact this
+
+/-- … also when the first record's encoder fails: the decision is taken before the record is
+encoded -/
+theorem C17_iff_big_enough (path : Path) (am : Bool) (m : Nat) (roll : RollFn) (d : Disk) (now : Nat)
+    (op : XOp) (harr : arrival op = true) :
+    let cfg := startupCfg path am m roll
+    ∃ out, (applyX cfg (init cfg d false now) op).1 = some out ∧
+      (out.rolled.isSome ↔ (if am then fileOf cfg d else []).length ≥ m) := by
+  intro cfg
+  obtain ⟨out, ho, hiff⟩ := C17_rolls_iff_first_and_big path am m roll d now [] op harr
+  refine ⟨out, ho, ?_⟩
+  have hfile := init_fileOf path am m roll d now
+  simp only [finalX, List.foldl_nil] at hiff
+  rw [hfile] at hiff
+  simpa [freshX] using hiff
+
+/-! ### (d) + (e) where the old content goes, what the new file holds -/
+
+/-- EXACT placement for the fixed-window roller (any base, count — `count = 0` keeps nothing —,
+plain or compressing pattern, any pre-existing window, gaps and bystanders included; any fault
+oracle, as long as the append succeeds): when the first record finds a file of at least
+`min_size` bytes,
+* the log file afterwards holds exactly the encoded record — a fresh file;
+* the window, slot by slot and decoded, is `rotateSlots` of the window before and the OLD CONTENT:
+  slot `base` holds the old content, every older archive has moved up by one slot, the one pushed
+  out of the last slot is dropped;
+* (raw) the file `name(base)` holds the old content (compressed when the pattern says so);
+* nothing else on the disk changes.
+A roller that wipes the directory does not satisfy this. -/
+theorem C17_content_placement_fw (r : RollerCfg) (decode : Bytes → Bytes) (hdec : ∀ x, decode (r.codec x) = x)
+    (path : Path) (hinj : r.count ≠ 0 → NamesInj r) (hfa : r.count ≠ 0 → FileApart r path)
+    (am : Bool) (m : Nat) (s : St Bool) (rec : Rec) (fault : Nat → Bool)
+    (hwf : WF (startupCfg path am m (fixedWindowRoll r)) s) (hfresh : s.tst = false)
+    (hbig : (fileOf (startupCfg path am m (fixedWindowRoll r)) s.disk).length ≥ m)
+    (hok : (append (startupCfg path am m (fixedWindowRoll r)) s rec fault).1.res = .ok) :
+    let cfg := startupCfg path am m (fixedWindowRoll r)
+    let s' := (append cfg s rec fault).2
+    let old := fileOf cfg s.disk
+    s'.disk.get? path = some (encBytes rec) ∧
+    slotsOf r decode s'.disk = Spec17.rotateSlots r.count (slotsOf r decode s.disk) old ∧
+    (r.count ≠ 0 → s'.disk.get? (r.nameOf r.base) = some (r.enc old)) ∧
+    (∀ q, Outside r path q → s'.disk.get? q = s.disk.get? q) := by
+  intro cfg s' old
+  obtain ⟨_, _, _, _, _, _, hyes⟩ := append_pre_spec cfg s rec fault hwf rfl _ _
+    (append cfg s rec fault).1 (append cfg s rec fault).2 rfl rfl rfl
+  rw [openView_of_opened cfg s hwf.1] at hyes
+  have key : (cfg.trig.fire s.tst (fileOf cfg s.disk).length s.now).1 = .yes := by
+    simp [cfg, startupCfg, onStartupTrigger, hfresh]
+    exact hbig
+  obtain ⟨d1, hg1, hse1, h⟩ := hyes key
+  rcases h with ⟨x, hx, _, _, ho, hse⟩ | ⟨e, _, hr, _⟩
+  · have hroll : fixedWindowRoll r path fault d1 = (.ok x, (fixedWindowRoll r path fault d1).2) := by
+      have : (fixedWindowRoll r path fault d1).1 = .ok x := hx
+      rw [← this]
+    have hff := fixedWindowRoll_ok_faultfree r path fault d1 x _ hroll
+    obtain ⟨d', hfree, hgone, hslots⟩ := roll_free r decode hdec path hinj hfa d1 (fileOf cfg s.disk) hg1
+    have hd' : (fixedWindowRoll r path fault d1).2 = d' := by
+      rw [hfree] at hff
+      exact ((Prod.mk.inj hff).2).symm
+    have hrd : (cfg.roll cfg.path fault d1).2 = d' := hd'
+    rw [hrd] at ho hse
+    have hfile0 : fileOf cfg d' = [] := by
+      show (d'.get? path).getD [] = []
+      rw [hgone]; rfl
+    rw [hfile0] at ho
+    obtain ⟨w, _, _, hg, _⟩ := ho
+    have hs1 : slotsOf r decode d1 = slotsOf r decode s.disk := slotsOf_sameElse r decode path hfa _ _ hse1
+    have hg' : s'.disk.get? path = some ([] ++ encBytes rec) := hg
+    refine ⟨by simpa using hg', ?_, ?_, ?_⟩
+    · rw [slotsOf_sameElse r decode path hfa _ _ hse, hslots, hs1]
+    · intro hc
+      rw [hse _ (hfa hc _)]
+      obtain ⟨d'', hroll'', hq⟩ := fixedWindowRoll_ok r path d1 (fileOf cfg s.disk) hc (hfa hc) hg1
+      have : d'' = d' := by
+        rw [hfree] at hroll''
+        exact ((Prod.mk.inj hroll'').2).symm
+      rw [← this, hq, if_pos rfl]
+    · intro q hq
+      rw [hse q hq.1, ← hd']
+      rw [fixedWindowRoll_frame r path fault d1 q hq.1 (by
+        intro i h1 h2
+        have := hq.2 (i - r.base) (by omega)
+        rwa [show r.base + (i - r.base) = i from by omega] at this)]
+      exact hse1 q hq.1
+  · rw [hr] at hok
+    cases hok
+
+/-- On a DENSE pre-existing window (the `k ≤ count` newest archives `ws`, newest first, at
+`base … base+k-1`, nothing above) the exact placement is the statement's `Spec.rotateWindow`:
+the window afterwards is `(old :: ws).take count` — "the pre-existing content becomes the newest
+archive". -/
+theorem C17_content_placement_dense (r : RollerCfg) (decode : Bytes → Bytes) (hdec : ∀ x, decode (r.codec x) = x)
+    (path : Path) (hinj : r.count ≠ 0 → NamesInj r) (hfa : r.count ≠ 0 → FileApart r path)
+    (am : Bool) (m : Nat) (s : St Bool) (rec : Rec) (fault : Nat → Bool) (ws : List Bytes)
+    (hwf : WF (startupCfg path am m (fixedWindowRoll r)) s) (hfresh : s.tst = false)
+    (hbig : (fileOf (startupCfg path am m (fixedWindowRoll r)) s.disk).length ≥ m)
+    (hok : (append (startupCfg path am m (fixedWindowRoll r)) s rec fault).1.res = .ok)
+    (hw : slotsOf r decode s.disk = Spec17.ofWindow r.count ws) :
+    let cfg := startupCfg path am m (fixedWindowRoll r)
+    slotsOf r decode (append cfg s rec fault).2.disk =
+      Spec17.ofWindow r.count (Spec.rotateWindow r.count ws (fileOf cfg s.disk)) := by
+  intro cfg
+  have h := (C17_content_placement_fw r decode hdec path hinj hfa am m s rec fault hwf hfresh hbig hok).2.1
+  rw [h, hw, Spec17.rotateSlots_dense]
+
+/-- The delete roller keeps nothing: when the first record rolls, the log file afterwards holds
+exactly the encoded record and no other file is touched (the old content is gone — with this
+roller "becomes the newest archive" has no archive to refer to). -/
+theorem C17_content_placement_delete (path : Path) (am : Bool) (m : Nat) (s : St Bool) (rec : Rec) (fault : Nat → Bool)
+    (hwf : WF (startupCfg path am m (fun p f d => deleteRoll p f d)) s) (hfresh : s.tst = false)
+    (hbig : (fileOf (startupCfg path am m (fun p f d => deleteRoll p f d)) s.disk).length ≥ m)
+    (hok : (append (startupCfg path am m (fun p f d => deleteRoll p f d)) s rec fault).1.res = .ok) :
+    let cfg := startupCfg path am m (fun p f d => deleteRoll p f d)
+    (append cfg s rec fault).2.disk.get? path = some (encBytes rec) ∧
+    ∀ q, q ≠ path → (append cfg s rec fault).2.disk.get? q = s.disk.get? q := by
+  intro cfg
+  let r0 : RollerCfg := { nameOf := fun _ => [], base := 0, count := 0 }
+  have hroll : (fun p f d => deleteRoll p f d) = fixedWindowRoll r0 := by
+    funext p f d
+    exact deleteRoll_eq r0 rfl p f d
+  show (append (startupCfg path am m (fun p f d => deleteRoll p f d)) s rec fault).2.disk.get? path = _ ∧
+    ∀ q, q ≠ path → (append (startupCfg path am m (fun p f d => deleteRoll p f d)) s rec fault).2.disk.get? q = _
+  rw [hroll] at hwf hbig hok ⊢
+  obtain ⟨h1, _, _, h4⟩ := C17_content_placement_fw r0 id (fun _ => rfl) path (fun h => absurd rfl h) (fun h => absurd rfl h)
+    am m s rec fault hwf hfresh hbig hok
+  exact ⟨h1, fun q hq => h4 q ⟨hq, fun j hj => absurd hj (by simp [r0])⟩⟩
+
+/-- THE LINK BETWEEN PROOF AND EXECUTABLE SPEC. For the appender of the tie — on-start-up trigger,
+fixed-window roller (any base/count/compression; `count = 0` is also the delete roller, see
+`C17_model_refines_spec_delete`) behind the harness's wrapper — on any initial disk, in both modes,
+over every history of `XOp`s (records with working or failing encoders, every fault index incl.
+"Err after the work", restarts, ticks): after every operation the model's directory is the one
+`Spec17.step` computes (log file present/absent and its content, the window slot by slot, every
+other path untouched) and the number of rotation requests and the Ok/Err of the operation are
+the ones it predicts. `Driver/C17.lean` evaluates this very function on the real directory. -/
+theorem C17_model_refines_spec (r : RollerCfg) (decode : Bytes → Bytes) (hdec : ∀ x, decode (r.codec x) = x)
+    (path : Path) (hinj : r.count ≠ 0 → NamesInj r) (hfa : r.count ≠ 0 → FileApart r path)
+    (am : Bool) (m : Nat) (d : Disk) (now : Nat) (ops : List XOp) :
+    let cfg := startupCfg path am m (Spec17.lateWrap (fixedWindowRoll r))
+    Pointwise (fun (e : Option Out × St Bool) (xv : Spec17.Expect × Option Spec17.Verdict) =>
+        Agrees r decode path d xv.1 e.2 ∧ VerdictOk xv.2 e.1)
+      (traceX cfg (init cfg d false now) ops)
+      (Spec17.trace r.count m am (expect0 r decode path am d) (ops.map Spec17.evOf)) := by
+  intro cfg
+  exact trace_refines r decode hdec path hinj hfa am m d ops _ _ (agrees_init r decode path hfa am m d now)
+    (WF_init (fwStartupCfg r path am m) d false now)
+
+/-- the same for the delete roller: the statement with an empty window -/
+theorem C17_model_refines_spec_delete (path : Path) (am : Bool) (m : Nat) (d : Disk) (now : Nat) (ops : List XOp) :
+    let r0 : RollerCfg := { nameOf := fun _ => [], base := 0, count := 0 }
+    let cfg := startupCfg path am m (Spec17.lateWrap (fun p f d => deleteRoll p f d))
+    Pointwise (fun (e : Option Out × St Bool) (xv : Spec17.Expect × Option Spec17.Verdict) =>
+        Agrees r0 id path d xv.1 e.2 ∧ VerdictOk xv.2 e.1)
+      (traceX cfg (init cfg d false now) ops)
+      (Spec17.trace 0 m am (expect0 r0 id path am d) (ops.map Spec17.evOf)) := by
+  intro r0 cfg
+  have hcfg : cfg = startupCfg path am m (Spec17.lateWrap (fixedWindowRoll r0)) := by
+    show startupCfg path am m (Spec17.lateWrap (fun p f d => deleteRoll p f d)) = _
+    have : (fun p f d => deleteRoll p f d) = fixedWindowRoll r0 := by
+      funext p f d
+      exact deleteRoll_eq r0 rfl p f d
+    rw [this]
+  rw [hcfg]
+  exact C17_model_refines_spec r0 id (fun _ => rfl) path (fun h => absurd rfl h) (fun h => absurd rfl h) am m d now ops
+
+/-- The first record after start-up whose ROLLER FAILS (step `k` of the rotation cannot be done):
+one rotation request, the append returns `Err`, the record is NOT written, the old content is still
+in the log file, the window has seen exactly the first `k` shifts — and the request is never
+repeated: no later record invokes the roller (until a restart). Over any history `pre` that ends
+with a fresh appender. -/
+theorem C17_first_record_roller_fails (r : RollerCfg) (decode : Bytes → Bytes) (hdec : ∀ x, decode (r.codec x) = x)
+    (path : Path) (hinj : r.count ≠ 0 → NamesInj r) (hfa : r.count ≠ 0 → FileApart r path)
+    (am : Bool) (m : Nat) (d : Disk) (now : Nat) (pre : List XOp) (hfresh : freshX pre = true)
+    (rec : Rec) (k : Nat) (hk : k < Spec17.nSteps r.count) (hkl : k ≠ Spec17.LATE) :
+    let cfg := startupCfg path am m (Spec17.lateWrap (fixedWindowRoll r))
+    let s := finalX cfg (init cfg d false now) pre
+    (fileOf cfg s.disk).length ≥ m →
+    ∃ out, (applyX cfg s (.op (.append rec (some k)))).1 = some out ∧
+      out.res = .errRoll ∧ out.rolled = some false ∧
+      (applyX cfg s (.op (.append rec (some k)))).2.disk.get? path = some (fileOf cfg s.disk) ∧
+      slotsOf r decode (applyX cfg s (.op (.append rec (some k)))).2.disk =
+        Spec17.shifted r.count k (slotsOf r decode s.disk) ∧
+      ∀ later : List XOp, (∀ op ∈ later, arrival op = true) →
+        ∀ e ∈ traceX cfg (applyX cfg s (.op (.append rec (some k)))).2 later, ∃ o, e.1 = some o ∧ o.rolled = none := by
+  intro cfg s hbig
+  have hwf0 := WF_init cfg d false now
+  obtain ⟨hag, hwf⟩ := final_refines r decode hdec path hinj hfa am m d pre _ _
+    (agrees_init r decode path hfa am m d now) hwf0
+  have hst : s.tst = false := by
+    have ht := startup_tst_finalX path am m (Spec17.lateWrap (fixedWindowRoll r)) pre _ hwf0 true (init_tst path am m _ d now)
+    show (finalX cfg _ pre).tst = false
+    rw [ht]; simp only [freshX] at hfresh; simp [hfresh]
+  -- the statement's state before the record
+  generalize hx : Spec17.final r.count m am (expect0 r decode path am d) (pre.map Spec17.evOf) = x at hag
+  have hag' : Agrees r decode path d x s := hag
+  have hfirst : x.first = true := by
+    have := hag'.tst
+    rw [hst] at this
+    cases hxf : x.first <;> simp [hxf] at this ⊢
+  have hact : x.active = fileOf cfg s.disk := (hag'.fileOf am m).symm
+  have hrn : Spec17.rollsNow m x = true := by
+    simp only [Spec17.rollsNow, hfirst, Bool.true_and, decide_eq_true_eq]
+    rw [hact]; exact hbig
+  obtain ⟨h1, h2, h3⟩ := step_refines r decode hdec path hinj hfa am m d x s hag' hwf (.op (.append rec (some k)))
+  have hstep : Spec17.step r.count m am x (Spec17.evOf (.op (.append rec (some k)))) =
+      ({ x with slots := Spec17.shifted r.count k x.slots, first := false }, some { calls := 1, ok := false }) := by
+    simp [Spec17.step, Spec17.evOf, Spec17.moodOf, hkl, hrn, Spec17.outcomeOf, hk]
+  rw [hstep] at h1 h3
+  have hpres : x.present = true := hag'.firstPresent hfirst
+  cases hout : (applyX cfg s (.op (.append rec (some k)))).1 with
+  | none => rw [show (applyX (fwStartupCfg r path am m) s (.op (.append rec (some k)))).1 = none from hout] at h3; exact absurd h3 (by simp [VerdictOk])
+  | some out =>
+    rw [show (applyX (fwStartupCfg r path am m) s (.op (.append rec (some k)))).1 = some out from hout] at h3
+    obtain ⟨hc, hokk⟩ := h3
+    have hrolled : out.rolled.isSome = true := by
+      cases hn : out.rolled.isSome with
+      | true => rfl
+      | false => simp [hn] at hc
+    have hnotok : out.res ≠ .ok := by
+      intro he
+      simp [he] at hokk
+    -- which error, and `some false`: from the model's own case analysis
+    have hs := (startup_append path am m (Spec17.lateWrap (fixedWindowRoll r)) s rec (faultFn (some k)) hwf)
+    obtain ⟨_, _, _, _, hno, herr, hyes⟩ := append_pre_spec cfg s rec (faultFn (some k)) hwf rfl _ _
+      (append cfg s rec (faultFn (some k))).1 (append cfg s rec (faultFn (some k))).2 rfl rfl rfl
+    have hout' : (append cfg s rec (faultFn (some k))).1 = out := by
+      have : (applyX cfg s (.op (.append rec (some k)))).1 = some (append cfg s rec (faultFn (some k))).1 := rfl
+      rw [hout] at this
+      exact (Option.some.inj this).symm
+    have key : (cfg.trig.fire s.tst (openView cfg s).length s.now).1 = .yes := by
+      rw [openView_of_opened cfg s hwf.1]
+      simp [cfg, startupCfg, onStartupTrigger, hst]
+      exact hbig
+    obtain ⟨d1, _, _, hdisj⟩ := hyes key
+    rw [hout'] at hdisj
+    have hres : out.res = .errRoll ∧ out.rolled = some false := by
+      rcases hdisj with ⟨_, _, hr, _⟩ | ⟨_, _, hr, hro, _⟩
+      · exact absurd hr hnotok
+      · exact ⟨hr, hro⟩
+    refine ⟨out, rfl, hres.1, hres.2, ?_, ?_, ?_⟩
+    · have := h1.file
+      simp only [hpres, if_true] at this
+      rw [← hact]
+      exact this
+    · have hsl : slotsOf r decode (applyX cfg s (.op (.append rec (some k)))).2.disk =
+          Spec17.shifted r.count k x.slots := h1.slots
+      rw [hsl, ← hag'.slots]
+    · intro later hl e he
+      have htst' : (applyX cfg s (.op (.append rec (some k)))).2.tst = true := by
+        have : (applyX cfg s (.op (.append rec (some k)))).2.tst = !false := h1.tst
+        simpa using this
+      exact (arrivals_after_fired path am m (Spec17.lateWrap (fixedWindowRoll r)) later _ h2 htst' hl).1 e he
+
+/-- The first record after start-up whose ENCODER FAILS (file big enough, roller working): the
+rotation is requested all the same — one request, the old content becomes the newest archive —,
+the append returns `Err`, and the log file afterwards is a fresh EMPTY file (`get_writer` has
+recreated it before the encoder ran). Over any history `pre` that ends with a fresh appender. -/
+theorem C17_first_record_encoder_fails (r : RollerCfg) (decode : Bytes → Bytes) (hdec : ∀ x, decode (r.codec x) = x)
+    (path : Path) (hinj : r.count ≠ 0 → NamesInj r) (hfa : r.count ≠ 0 → FileApart r path)
+    (am : Bool) (m : Nat) (d : Disk) (now : Nat) (pre : List XOp) (hfresh : freshX pre = true)
+    (rec : Rec) (n : Nat) :
+    let cfg := startupCfg path am m (Spec17.lateWrap (fixedWindowRoll r))
+    let s := finalX cfg (init cfg d false now) pre
+    (fileOf cfg s.disk).length ≥ m →
+    ∃ out, (applyX cfg s (.appendFail rec n none)).1 = some out ∧
+      out.res ≠ .ok ∧ out.rolled.isSome = true ∧
+      (applyX cfg s (.appendFail rec n none)).2.disk.get? path = some [] ∧
+      slotsOf r decode (applyX cfg s (.appendFail rec n none)).2.disk =
+        Spec17.rotateSlots r.count (slotsOf r decode s.disk) (fileOf cfg s.disk) := by
+  intro cfg s hbig
+  have hwf0 := WF_init cfg d false now
+  obtain ⟨hag, hwf⟩ := final_refines r decode hdec path hinj hfa am m d pre _ _
+    (agrees_init r decode path hfa am m d now) hwf0
+  have hst : s.tst = false := by
+    have ht := startup_tst_finalX path am m (Spec17.lateWrap (fixedWindowRoll r)) pre _ hwf0 true (init_tst path am m _ d now)
+    show (finalX cfg _ pre).tst = false
+    rw [ht]; simp only [freshX] at hfresh; simp [hfresh]
+  generalize hx : Spec17.final r.count m am (expect0 r decode path am d) (pre.map Spec17.evOf) = x at hag
+  have hag' : Agrees r decode path d x s := hag
+  have hfirst : x.first = true := by
+    have := hag'.tst
+    rw [hst] at this
+    cases hxf : x.first <;> simp [hxf] at this ⊢
+  have hact : x.active = fileOf cfg s.disk := (hag'.fileOf am m).symm
+  have hrn : Spec17.rollsNow m x = true := by
+    simp only [Spec17.rollsNow, hfirst, Bool.true_and, decide_eq_true_eq]
+    rw [hact]; exact hbig
+  obtain ⟨h1, _, h3⟩ := step_refines r decode hdec path hinj hfa am m d x s hag' hwf (.appendFail rec n none)
+  have hstep : Spec17.step r.count m am x (Spec17.evOf (.appendFail rec n none)) =
+      ({ slots := Spec17.rotateSlots r.count x.slots x.active, active := [], first := false, present := true },
+       some { calls := 1, ok := false }) := by
+    simp [Spec17.step, Spec17.evOf, Spec17.moodOf, hrn, Spec17.outcomeOf]
+  rw [hstep] at h1 h3
+  cases hout : (applyX cfg s (.appendFail rec n none)).1 with
+  | none => rw [show (applyX (fwStartupCfg r path am m) s (.appendFail rec n none)).1 = none from hout] at h3; exact absurd h3 (by simp [VerdictOk])
+  | some out =>
+    rw [show (applyX (fwStartupCfg r path am m) s (.appendFail rec n none)).1 = some out from hout] at h3
+    obtain ⟨hc, hokk⟩ := h3
+    refine ⟨out, rfl, ?_, ?_, ?_, ?_⟩
+    · intro he
+      simp [he] at hokk
+    · cases hn : out.rolled.isSome with
+      | true => rfl
+      | false => simp [hn] at hc
+    · have hf : (applyX cfg s (.appendFail rec n none)).2.disk.get? path = if true then some [] else none := h1.file
+      simpa using hf
+    · have hsl : slotsOf r decode (applyX cfg s (.appendFail rec n none)).2.disk =
+          Spec17.rotateSlots r.count x.slots x.active := h1.slots
+      rw [hsl, ← hag'.slots, hact]
+
+/-! ### (f) simultaneous first appends -/
+
+/-- Simultaneous first appends under the appender's mutex (coarse lock machine: the guard spans the
+whole `append`; threads run arbitrary lists of arriving records — working or failing encoders, any
+roller fault index —; any scheduler). In every reachable state:
+1. the appender's outputs and state are those of the sequential history of the committed records
+   in commit order;
+2. per thread, the committed records are a prefix of its program, in order;
+3. ONLY THE FIRST COMMITTED RECORD CAN REQUEST A ROTATION …
+4. … and it does iff the file the appender opened has at least `min_size` bytes;
+5. when that rotation succeeded (roller honouring `Roll::roll`'s contract), the log file holds
+   exactly the successfully written records in commit order: EVERY RECORD LANDED AFTER THE ROLL;
+6. when the first record did not roll, all of them follow the old content.
+The mutex and the `Once` are the assumptions (the trigger step is inside the critical section
+here; `C17_once_at_most_one_yes` is the statement about the trigger without any lock). -/
+theorem C17_concurrent_first (path : Path) (am : Bool) (m : Nat) (roll : RollFn) (d : Disk) (now : Nat)
+    (progs : List (List XOp)) (harr : ∀ p ∈ progs, ∀ j ∈ p, arrival j = true) (sched : List Nat) :
+    let cfg := startupCfg path am m roll
+    let s0 := init cfg d false now
+    let body : XOp → (List (Option Out) × St Bool) → (List (Option Out) × St Bool) :=
+      fun j acc => (acc.1 ++ [(applyX cfg acc.2 j).1], (applyX cfg acc.2 j).2)
+    let st := lrun body (LState.init ([], s0) progs) sched
+    let order := st.log.map (·.2)
+    (st.shared.1 = (traceX cfg s0 order).map (·.1) ∧ st.shared.2 = finalX cfg s0 order) ∧
+    (∀ i t, st.threads[i]? = some t → (st.log.filter (fun e => e.1 == i)).map (·.2) = t.done ∧
+        ∃ p, progs[i]? = some p ∧ t.done <+: p) ∧
+    (∀ k out, st.shared.1[k]? = some (some out) → out.rolled.isSome → k = 0) ∧
+    (∀ out, st.shared.1[0]? = some (some out) →
+        (out.rolled.isSome ↔ (if am then fileOf cfg d else []).length ≥ m)) ∧
+    (∀ out, st.shared.1[0]? = some (some out) → out.rolled = some true → RollGone roll path →
+        fileOf cfg st.shared.2.disk = (order.map okBytes).flatten) ∧
+    (∀ out, st.shared.1[0]? = some (some out) → out.rolled = none →
+        fileOf cfg st.shared.2.disk = (if am then fileOf cfg d else []) ++ (order.map okBytes).flatten) := by
+  intro cfg s0 body st order
+  have inv : LInv body ([], s0) progs st := LInv.run sched (LInv.init body _ progs)
+  -- the fold of `body` is the sequential trace
+  have hseq : ∀ (js : List XOp) (acc : List (Option Out) × St Bool),
+      js.foldl (fun acc j => body j acc) acc =
+        (acc.1 ++ (traceX cfg acc.2 js).map (·.1), finalX cfg acc.2 js) := by
+    intro js
+    induction js with
+    | nil => intro acc; simp [traceX, finalX]
+    | cons j js ih =>
+      intro acc
+      simp only [List.foldl_cons]
+      rw [ih]
+      simp [body, traceX, finalX_cons, List.append_assoc]
+  have hshared : st.shared = ((traceX cfg s0 order).map (·.1), finalX cfg s0 order) := by
+    rw [inv.shared, hseq]
+    simp [order]
+  -- every committed job is an arriving record
+  have horder : ∀ j ∈ order, arrival j = true := by
+    intro j hj
+    simp only [order, List.mem_map] at hj
+    obtain ⟨⟨i, j'⟩, he, rfl⟩ := hj
+    have hi : (i, j') ∈ st.log.filter (fun e => e.1 == i) := by simp [he]
+    -- the log entry belongs to thread i's done list
+    cases hti : st.threads[i]? with
+    | none =>
+      -- a log entry of a thread that does not exist cannot happen: its filtered log would be non-empty
+      exfalso
+      have hnone : ∀ (sch : List Nat) (s : LState (List (Option Out) × St Bool) XOp),
+          (∀ e ∈ s.log, e.1 < s.threads.length) →
+          ∀ e ∈ (lrun body s sch).log, e.1 < (lrun body s sch).threads.length := by
+        intro sch
+        induction sch with
+        | nil => intro s h; exact h
+        | cons i0 rest ih =>
+          intro s h
+          simp only [lrun]
+          cases hst : lstep body i0 s with
+          | none => simpa [hst] using ih s h
+          | some s1 =>
+            simp only [hst, Option.getD_some]
+            apply ih
+            unfold lstep at hst
+            cases ht0 : s.threads[i0]? with
+            | none => simp [ht0] at hst
+            | some t0 =>
+              have hi0 : i0 < s.threads.length := (List.getElem?_eq_some_iff.mp ht0).1
+              simp only [ht0] at hst
+              cases htd : t0.todo with
+              | nil => simp [htd] at hst
+              | cons j0 r0 =>
+                simp only [htd] at hst
+                by_cases hh : t0.holding
+                · simp only [hh, if_true, Option.some.injEq] at hst
+                  subst hst
+                  intro e he
+                  simp only [List.mem_append, List.mem_singleton] at he
+                  simp only [List.length_set]
+                  rcases he with he | rfl
+                  · exact h e he
+                  · exact hi0
+                · simp only [hh, Bool.false_eq_true, if_false] at hst
+                  by_cases hf : s.lockFree
+                  · simp only [hf, if_true, Option.some.injEq] at hst
+                    subst hst
+                    intro e he
+                    simp only [List.length_set]
+                    exact h e he
+                  · simp [hf] at hst
+      have := hnone sched (LState.init ([], s0) progs) (by intro e he; simp [LState.init] at he) (i, j') he
+      have hlt : i < st.threads.length := this
+      rw [List.getElem?_eq_none_iff] at hti
+      omega
+    | some t =>
+      obtain ⟨hl, p, hp1, hp2⟩ := inv.threads i t hti
+      have hmem : j' ∈ t.done := by
+        rw [← hl]
+        exact List.mem_map.mpr ⟨(i, j'), hi, rfl⟩
+      have hp : p ∈ progs := List.mem_of_getElem? hp1
+      exact harr p hp j' (by rw [← hp2]; simp [hmem])
+  have hwf0 := WF_init cfg d false now
+  have hs1 : st.shared.1 = (traceX cfg s0 order).map (·.1) := by rw [hshared]
+  have hs2 : st.shared.2 = finalX cfg s0 order := by rw [hshared]
+  -- entry k of the outputs
+  have hentry : ∀ k out, st.shared.1[k]? = some (some out) →
+      ∃ op, order[k]? = some op ∧ (applyX cfg (finalX cfg s0 (order.take k)) op).1 = some out := by
+    intro k out hk
+    rw [hs1, List.getElem?_map, traceX_getElem?] at hk
+    cases hop : order[k]? with
+    | none => simp [hop] at hk
+    | some op =>
+      simp only [hop, Option.map_some, Option.some.injEq] at hk
+      exact ⟨op, rfl, hk⟩
+  refine ⟨⟨hs1, hs2⟩, ?_, ?_, ?_, ?_, ?_⟩
+  · intro i t ht
+    obtain ⟨hl, p, hp1, hp2⟩ := inv.threads i t ht
+    exact ⟨hl, p, hp1, ⟨t.todo, hp2⟩⟩
+  · intro k out hk hroll
+    obtain ⟨op, hop, hout⟩ := hentry k out hk
+    have hfresh := C17_only_first path am m roll d now (order.take k) op out hout hroll
+    -- a non-empty prefix of arriving records is not fresh
+    cases k with
+    | zero => rfl
+    | succ k =>
+      exfalso
+      have hlen : k + 1 ≤ order.length := by
+        have := (List.getElem?_eq_some_iff.mp hop).1
+        omega
+      have hne : order.take (k + 1) ≠ [] := by
+        intro h
+        have h1 : (order.take (k + 1)).length = k + 1 := by rw [List.length_take]; omega
+        rw [h] at h1
+        simp at h1
+      -- the last element of the prefix is an arrival, so the fold ends in `false`
+      obtain ⟨pre, last, hpl⟩ : ∃ pre last, order.take (k + 1) = pre ++ [last] :=
+        ⟨_, _, (List.dropLast_concat_getLast hne).symm⟩
+      have hlast : arrival last = true :=
+        horder last (List.mem_of_mem_take (by rw [hpl]; simp))
+      rw [hpl] at hfresh
+      simp only [freshX, List.foldl_append, List.foldl_cons, List.foldl_nil] at hfresh
+      cases last with
+      | appendFail r n f => simp at hfresh
+      | op o =>
+        cases o with
+        | append r f => simp at hfresh
+        | restart => simp [arrival] at hlast
+        | tick dt => simp [arrival] at hlast
+  · intro out hk
+    obtain ⟨op, hop, hout⟩ := hentry 0 out hk
+    have harr0 : arrival op = true := horder op (List.mem_of_getElem? hop)
+    obtain ⟨out', ho', hiff⟩ := C17_iff_big_enough path am m roll d now op harr0
+    simp only [List.take_zero, finalX, List.foldl_nil] at hout
+    rw [hout] at ho'
+    rw [← Option.some.inj ho'] at hiff
+    exact hiff
+  · intro out hk hsome hgone
+    obtain ⟨op, hop, hout⟩ := hentry 0 out hk
+    simp only [List.take_zero, finalX, List.foldl_nil] at hout
+    cases hord : order with
+    | nil => rw [hord] at hop; simp at hop
+    | cons op0 rest =>
+      rw [hord] at hop
+      simp only [List.getElem?_cons_zero, Option.some.injEq] at hop
+      subst hop
+      have harr0 : arrival op0 = true := horder op0 (by rw [hord]; simp)
+      obtain ⟨out', ho', _, htst, _, hfile⟩ := first_arrival path am m roll s0 op0 hwf0 (init_tst path am m roll d now) harr0
+      rw [hout] at ho'
+      have : out' = out := (Option.some.inj ho').symm
+      subst this
+      have hrest := (arrivals_after_fired path am m roll rest _ (WF_applyX cfg s0 op0 hwf0) htst
+        (fun o ho => horder o (by rw [hord]; simp [ho]))).2
+      rw [hs2, hord, finalX_cons, hrest, hfile hsome hgone]
+      simp
+  · intro out hk hnone
+    obtain ⟨op, hop, hout⟩ := hentry 0 out hk
+    simp only [List.take_zero, finalX, List.foldl_nil] at hout
+    cases hord : order with
+    | nil => rw [hord] at hop; simp at hop
+    | cons op0 rest =>
+      rw [hord] at hop
+      simp only [List.getElem?_cons_zero, Option.some.injEq] at hop
+      subst hop
+      have harr0 : arrival op0 = true := horder op0 (by rw [hord]; simp)
+      obtain ⟨out', ho', _, htst, hfile, _⟩ := first_arrival path am m roll s0 op0 hwf0 (init_tst path am m roll d now) harr0
+      rw [hout] at ho'
+      have : out' = out := (Option.some.inj ho').symm
+      subst this
+      have hrest := (arrivals_after_fired path am m roll rest _ (WF_applyX cfg s0 op0 hwf0) htst
+        (fun o ho => horder o (by rw [hord]; simp [ho]))).2
+      rw [hs2, hord, finalX_cons, hrest, hfile hnone, init_fileOf]
+      simp only [List.map_cons, List.flatten_cons, List.append_assoc]
+      rfl
+
+/-- The trigger ALONE, called from any number of threads with NO lock around it (`trigger` is a
+public method of a `Send + Sync` object): with `std::sync::Once` modelled as an atomic claim
+(`Once17.step`), over every schedule and any number of calls per thread, at most ONE call of
+`trigger` ever answers `true` — at most one rotation request per trigger object. -/
+theorem C17_once_at_most_one_yes (progs : List (Nat × Bool)) (sched : List Nat) :
+    Once17.yesCount (Once17.run Once17.step (Once17.init progs) sched) ≤ 1 :=
+  Once17.inv_yes_le_one (Once17.inv_run sched (Once17.inv_init progs))
+
+/-- What the atomicity assumption buys: with a plain flag (look and claim as two steps,
+`Once17.stepRacy`) two simultaneous first calls both answer `true` — two rotation requests. (A
+concrete schedule of two threads; a witness, not a universally quantified statement.) -/
+theorem C17_once_racy_flag_breaks :
+    Once17.yesCount (Once17.run Once17.stepRacy (Once17.init [(1, true), (1, true)]) [0, 1, 0, 1, 0, 1, 0, 1]) = 2 := by
+  decide
+
 /-! ### non-vacuity (tests on samples) -/
+
+private def demoPath : Path := ['a']
+private def demoRoller : RollerCfg := { nameOf := fun i => ['a', '.', Char.ofNat (48 + i)], base := 1, count := 2 }
+
+/-- min_size 3, a 3-byte file, window [slot1 = [7]]: the first record rolls — old content to slot 1,
+the former slot 1 to slot 2, the record alone in a fresh file —, the second does not -/
+example :
+    let cfg := startupCfg demoPath true 3 (fixedWindowRoll demoRoller)
+    let s0 := init cfg ((Disk.empty.set demoPath [1, 2, 3]).set ['a', '.', '1'] [7]) false 0
+    let a1 := append cfg s0 [[9]] (fun _ => false)
+    a1.1.rolled = some true ∧ a1.2.disk.get? demoPath = some [9] ∧
+      a1.2.disk.get? ['a', '.', '1'] = some [1, 2, 3] ∧ a1.2.disk.get? ['a', '.', '2'] = some [7] ∧
+      (append cfg a1.2 [[8]] (fun _ => false)).1.rolled = none := by
+  decide +kernel
+
+/-- the reviewer's disk-wiping "roller" satisfies the old contract but NOT the exact placement:
+`rotateSlots` of a one-slot window holding nothing is `[some old]`, the wiped disk shows `[none]` -/
+example : Spec17.rotateSlots 1 [none] [1, 2, 3] = [some [1, 2, 3]] := by decide
 
 /-- min_size 3, a 3-byte file, the FIRST record's encoder fails: the rotation is requested by that
 record all the same (the policy runs before the encoder), the second record does not roll -/
 example :
-    let cfg := startupCfg ['a'] true 3 (fun p f d => deleteRoll p f d)
-    let s0 := init cfg (Disk.empty.set ['a'] [1, 2, 3]) false 0
+    let cfg := startupCfg demoPath true 3 (fun p f d => deleteRoll p f d)
+    let s0 := init cfg (Disk.empty.set demoPath [1, 2, 3]) false 0
     let a1 := appendFail cfg s0 [[9]] 0 (fun _ => false)
     a1.1.res = .errEncode ∧ a1.1.rolled = some true ∧ (append cfg a1.2 [[8]] (fun _ => false)).1.rolled = none := by
   decide +kernel
 
-
-private def demoPath : Path := ['a']
-
-/-- min_size 3, a 3-byte file: the first record rolls, the second does not -/
+/-- the first record's roller fails at step 0 of a 2-slot rotation: nothing moved, the record is
+lost, the old content stays and later records are appended to it without another request -/
 example :
-    let cfg := startupCfg demoPath true 3 (fun p f d => deleteRoll p f d)
+    let cfg := startupCfg demoPath true 1 (Spec17.lateWrap (fixedWindowRoll demoRoller))
     let s0 := init cfg (Disk.empty.set demoPath [1, 2, 3]) false 0
-    let a1 := append cfg s0 [[9]] (fun _ => false)
-    a1.1.rolled = some true ∧ a1.2.disk.get? demoPath = some [9] ∧
-      (append cfg a1.2 [[8]] (fun _ => false)).1.rolled = none := by
+    let a1 := append cfg s0 [[9]] (faultFn (some 0))
+    let a2 := append cfg a1.2 [[8]] (fun _ => false)
+    a1.1.res = .errRoll ∧ a1.1.rolled = some false ∧ a1.2.disk.get? demoPath = some [1, 2, 3] ∧
+      a2.1.rolled = none ∧ a2.2.disk.get? demoPath = some [1, 2, 3, 8] := by
   decide +kernel
 
 /-- min_size = u64::MAX (and 2^63): a 3-byte file is never big enough (the model compares natural
@@ -532,6 +796,15 @@ example :
     let s0 := init cfg (Disk.empty.set demoPath [1, 2]) false 0
     (append cfg s0 [[9]] (fun _ => false)).1.rolled = none ∧
       (append cfg s0 [[9]] (fun _ => false)).2.disk.get? demoPath = some [1, 2, 9] := by
+  decide +kernel
+
+/-- min_size 0 rolls an EMPTY file at every start: with a full fixed window that evicts the oldest
+real archive each time (consistent with the statement; worth knowing) -/
+example :
+    let cfg := startupCfg demoPath true 0 (fixedWindowRoll demoRoller)
+    let s0 := init cfg ((Disk.empty.set ['a', '.', '1'] [11]).set ['a', '.', '2'] [22]) false 0
+    let a1 := append cfg s0 [[9]] (fun _ => false)
+    a1.1.rolled = some true ∧ a1.2.disk.get? ['a', '.', '1'] = some [] ∧ a1.2.disk.get? ['a', '.', '2'] = some [11] := by
   decide +kernel
 
 end Log4rs.Rolling
